@@ -4,6 +4,6 @@ P=$1; shift
 cd /repo || exit 2
 if [ -n "$(git status --porcelain --untracked-files=no)" ]; then echo "/repo not clean"; exit 2; fi
 git apply "$P" || { echo "patch does not apply"; exit 3; }
-for pid in "$@"; do (cd /verif && ./check $pid | tail -4); done
+for pid in "$@"; do (cd /verif && JRSA_EVIDENCE_DIR=/var/tmp/jrsa-scratch-evidence ./check $pid | tail -4); done
 git checkout -- . 
 git status --porcelain --untracked-files=no
